@@ -121,9 +121,9 @@ theorem C04_exit_enabled_iff (st : State) (t s : Nat) (ev : ExcVal) :
     · exact hg'
     · obtain ⟨st', he⟩ := exitScope_enabled ev hg'
       rw [he] at h; cases h
-  · intro h; rw [exitScope_eq, if_pos h]
+  · intro h; rw [exitScope_split, if_pos h]
 
-/-- Frame: `__exit__` (including `_restart_cancellation_in_parent`) changes neither the
+/-- DFrame: `__exit__` (including `_restart_cancellation_in_parent`) changes neither the
 `cancelCalled` / `shield` flags nor the `parent` / `chain` pointers nor the deadline of any
 scope; hence `effCancelled` and `parentVisible` of every scope are the same before and after. -/
 theorem C04_exit_frame {st st' : State} {t s : Nat} {ev : ExcVal} {r : ExitResult}
@@ -148,7 +148,7 @@ theorem C04_exit_swallowed_iff {st st' : State} {t s : Nat} {ev : ExcVal} {r : E
       (st.scopes s).cancelCalled = true ∧ parentVisible st s = false ∧
         (ev = .one .cancelAnyio ∨
           ∃ es, ev = .group es ∧ es ≠ [] ∧ ∀ e ∈ es, e = .cancelAnyio) := by
-  obtain ⟨_, rfl, _⟩ := exitScope_spec h
+  obtain ⟨_, rfl, _⟩ := exitScope_class h
   exact exitClass_swallowed_iff _ _ _
 
 /-- `__exit__` raises a new group `rest` iff the scope was itself cancelled, no cancelled
@@ -160,7 +160,7 @@ theorem C04_exit_raised_iff {st st' : State} {t s : Nat} {ev : ExcVal} {r : Exit
       (st.scopes s).cancelCalled = true ∧ parentVisible st s = false ∧
         ∃ es, ev = .group es ∧ (∃ e ∈ es, e = .cancelAnyio) ∧
           rest = es.filter (· ≠ .cancelAnyio) ∧ rest ≠ [] := by
-  obtain ⟨_, rfl, _⟩ := exitScope_spec h
+  obtain ⟨_, rfl, _⟩ := exitScope_class h
   exact exitClass_raised_iff _ _ _ _
 
 /-- ... and otherwise the exception (if any) continues unchanged: exactly when the scope was not
@@ -171,7 +171,7 @@ theorem C04_exit_passed_iff {st st' : State} {t s : Nat} {ev : ExcVal} {r : Exit
     r = .passed ↔
       (st.scopes s).cancelCalled = false ∨ parentVisible st s = true ∨
         Exc.cancelAnyio ∉ ev.leaves := by
-  obtain ⟨_, rfl, _⟩ := exitScope_spec h
+  obtain ⟨_, rfl, _⟩ := exitScope_class h
   exact exitClass_passed_iff _ _ _
 
 /-- The three outcomes in one statement: an exit absorbs (swallows, or strips the cancellations
@@ -193,7 +193,7 @@ theorem C04_caught_iff {st st' : State} {t s : Nat} {ev : ExcVal} {r : ExitResul
     (h : exitScope st t s ev = some (st', r)) :
     (st'.scopes s).caught = true ↔
       (st.scopes s).caught = true ∨ r = .swallowed ∨ ∃ rest, r = .raised rest := by
-  obtain ⟨_, _, hs⟩ := exitScope_spec h
+  obtain ⟨_, _, hs⟩ := exitScope_class h
   rw [hs.caught, walk_caught (exitMid_sameWalk st t s s)]
   cases r <;> simp
 
@@ -201,19 +201,19 @@ theorem C04_caught_iff {st st' : State} {t s : Nat} {ev : ExcVal} {r : ExitResul
 theorem C04_caught_other {st st' : State} {t s : Nat} {ev : ExcVal} {r : ExitResult}
     (h : exitScope st t s ev = some (st', r)) (i : Nat) (hi : i ≠ s) :
     (st'.scopes i).caught = (st.scopes i).caught := by
-  obtain ⟨_, _, hs⟩ := exitScope_spec h
+  obtain ⟨_, _, hs⟩ := exitScope_class h
   rw [hs.frame.caughtOther i hi, walk_caught (exitMid_sameWalk st t s i)]
 
 /-- Exceptions other than AnyIO cancellations (native cancellation, errors) always pass
 through, and so does "no exception". -/
 theorem C04_passthrough {st st' : State} {t s : Nat} {e : Exc} {r : ExitResult}
     (h : exitScope st t s (.one e) = some (st', r)) (he : e ≠ .cancelAnyio) : r = .passed := by
-  obtain ⟨_, rfl, _⟩ := exitScope_spec h
+  obtain ⟨_, rfl, _⟩ := exitScope_class h
   exact exitClass_one_ne _ _ he
 
 theorem C04_passthrough_none {st st' : State} {t s : Nat} {r : ExitResult}
     (h : exitScope st t s .none = some (st', r)) : r = .passed := by
-  obtain ⟨_, rfl, _⟩ := exitScope_spec h
+  obtain ⟨_, rfl, _⟩ := exitScope_class h
   exact exitClass_none _ _
 
 /-- For any incoming exception (single or group), what leaves `__exit__` has exactly the same
@@ -221,7 +221,7 @@ non-AnyIO-cancellation leaves, in the same order: nothing else is ever dropped. 
 theorem C04_passthrough_leaves {st st' : State} {t s : Nat} {ev : ExcVal} {r : ExitResult}
     (h : exitScope st t s ev = some (st', r)) :
     (exitToOut ev r).leaves.filter (· ≠ .cancelAnyio) = ev.leaves.filter (· ≠ .cancelAnyio) := by
-  obtain ⟨_, rfl, _⟩ := exitScope_spec h
+  obtain ⟨_, rfl, _⟩ := exitScope_class h
   exact exitClass_leaves _ _ _
 
 /-- ... and whatever AnyIO cancellation is not absorbed is still there: the outgoing exception is
@@ -247,12 +247,32 @@ theorem C04_exit_restores_pointer {st st' : State} {t s : Nat} {ev : ExcVal} {r 
     (st'.scopes s).active = false ∧
     (st'.scopes s).host = none ∧
     (st'.scopes s).timer = false := by
-  obtain ⟨_, _, hs⟩ := exitScope_spec h
+  obtain ⟨_, _, hs⟩ := exitScope_class h
   have hf := exitMid_frame st t s
   refine ⟨?_, ?_, hs.host, ?_⟩
   · rw [hs.frame.taskScope, hf.taskScope, (exitUnlink_task st t s).1]
   · rw [keep_active (hs.frame.keep s), ctl_active (hf.scopes s), (exitUnlink_scope st t s).1]
   · rw [keep_timer (hs.frame.keep s), ctl_timer (hf.scopes s), (exitUnlink_scope st t s).2]
+
+/-- The scope tree after `__exit__` (C05's pointer facts): the scope is no longer a child of its
+parent, the host task is back among the parent's tasks and no longer among the scope's own, and no
+other scope's `tasks` / `children` change. -/
+theorem C04_exit_relinks {st st' : State} {t s : Nat} {ev : ExcVal} {r : ExitResult}
+    (h : exitScope st t s ev = some (st', r)) :
+    (∀ p, (st.scopes s).parent = some p → p ≠ s →
+      (st'.scopes p).children = (st.scopes p).children.erase s ∧
+      (st'.scopes p).tasks = t :: (st.scopes p).tasks) ∧
+    ((st.scopes s).parent ≠ some s →
+      (st'.scopes s).tasks = (st.scopes s).tasks.erase t ∧
+      (st'.scopes s).children = (st.scopes s).children) ∧
+    (∀ i, i ≠ s → (st.scopes s).parent ≠ some i →
+      (st'.scopes i).tasks = (st.scopes i).tasks ∧
+      (st'.scopes i).children = (st.scopes i).children) := by
+  obtain ⟨l1, l2, l3⟩ := exitUnlink_links st t s
+  refine ⟨fun p hp hne => ?_, fun hne => ?_, fun i hi hne => ?_⟩
+  · rw [(exitScope_links h p).1, (exitScope_links h p).2]; exact (l1 p hp hne)
+  · rw [(exitScope_links h s).1, (exitScope_links h s).2]; exact l2 hne
+  · rw [(exitScope_links h i).1, (exitScope_links h i).2]; exact l3 i hi hne
 
 /-- The loop's queues after `__exit__`, exactly: if the scope's `timer` flag was set, *every*
 `timeout s` handle is removed from the timers, the current batch and the ready queue
@@ -346,6 +366,9 @@ example : (exitScope exC 0 1 (.one .cancelAnyio)).map (fun p => (p.1.tasks 0).sc
     some (some 0) := by decide
 example : (exitScope exC 0 1 (.one .cancelAnyio)).map (fun p => p.1.timers) =
     some [(7, .timeout 0)] := by decide
+example : (exitScope exC 0 1 (.one .cancelAnyio)).map
+    (fun p => ((p.1.scopes 0).children, (p.1.scopes 0).tasks, (p.1.scopes 1).tasks)) =
+    some ([], [0], []) := by decide
 -- group: cancellations stripped, the rest re-raised in order
 example : (exitScope exC 0 1 (.group [.err 1, .cancelAnyio, .cancelNative])).map (·.2) =
     some (.raised [.err 1, .cancelNative]) := by decide
